@@ -210,10 +210,24 @@ class FormattedValue(ExpressionPrinter):
         return False
 
     def visit_Str(self, node):
-        self.printer.append(str(Str(node.s, self.allowed_quotes, self.pep701)), TokenTypes.NonNumberLiteral)
+        try:
+            s = str(Str(node.s, self.allowed_quotes, self.pep701))
+        except Exception:
+            if not self.pep701:
+                raise
+            # With PEP 701 any string literal is allowed in the expression part
+            s = repr(node.s)
+        self.printer.append(s, TokenTypes.NonNumberLiteral)
 
     def visit_Bytes(self, node):
-        self.printer.append(str(Bytes(node.s, self.allowed_quotes)), TokenTypes.NonNumberLiteral)
+        try:
+            s = str(Bytes(node.s, self.allowed_quotes))
+        except Exception:
+            if not self.pep701:
+                raise
+            # With PEP 701 any bytes literal is allowed in the expression part
+            s = repr(node.s)
+        self.printer.append(s, TokenTypes.NonNumberLiteral)
 
     def visit_JoinedStr(self, node):
         assert isinstance(node, ast.JoinedStr)
